@@ -214,4 +214,16 @@ CLAIMS = {
         "technique": "abstract evaluation of the reader's position/peek functions in both lookahead states with symbolic "
                      "line/column tokens",
     },
+    "C10": {
+        "text": "Claimed (twin cross-check; not item-for-item equality): each hand-duplicated pair (next_value/next_datum, "
+                "parse_list/parse_list_meta, parse_vector/parse_vector_meta, expect_value/expect_datum, parse::from_trait/"
+                "datum::from_trait) agrees on the multiset of error codes raised, the byte constants tested and the "
+                "multiset of parser-internal callees (location-only callees removed, *_meta/*_datum renamed); next_value "
+                "and next_datum map every atom token to the same Value variant (extracted by abstract evaluation); all four "
+                "sequence parsers accept exactly the closing byte given by their terminator parameter in every position "
+                "(40 abstract cases incl. after a dotted tail). A change made to both twins alike is not detected.",
+        "note": _TB,
+        "technique": "feature extraction and comparison of sibling implementations over MIR; variant-map extraction; "
+                     "abstract evaluation of the close-delimiter logic",
+    },
 }
